@@ -61,7 +61,10 @@ impl<'a> PidIterator<'a> {
         Self {
             data,
             endianness,
-            position: 0,
+            // skip the 4-byte encapsulation header (representation identifier + options):
+            // read as a parameter it is pid 0x0300 in PL_CDR_LE, but pid 2
+            // (PID_PARTICIPANT_LEASE_DURATION) with length = options in PL_CDR_BE
+            position: 4,
         }
     }
 }
